@@ -368,7 +368,65 @@ pub fn startpos<N: Nd>(n: &mut N) {
     vcover!(w == 518 && b == 0, "orthodox white against Scharnagl 0");
 }
 
+/// Public accessors agree with the position; the clock setters keep the board
+/// accepted for in-range values (the out-of-range panics are `setters_panic`).
+pub fn accessors_setters<N: Nd>(n: &mut N) {
+    let (p, half, full) = sym_accepted(n);
+    if n.native() {
+        println!("witness: board \"{}\"", fen(&p, half, full));
+    }
+    let mut b = board_of(&p, half, full, n.u64());
+    let s = n.u8();
+    n.assume(s < 64);
+    let sb = bit(s);
+    let k = refm::kind_at(&p, sb);
+    let occ = p.occ() & sb != 0;
+    assert!(b.piece_on(sq(s)) == if occ { Some(piece(k as u8)) } else { None });
+    assert!(b.color_on(sq(s)) == if !occ { None } else { Some(color((p.col[1] & sb != 0) as u8)) });
+    assert!(b.occupied().0 == p.occ());
+    let c = n.u8();
+    n.assume(c < 2);
+    assert!(b.king(color(c)).bitboard().0 == p.king_bb(c as usize));
+    let pc = n.u8();
+    n.assume(pc < 6);
+    assert!(b.colored_pieces(color(c), piece(pc)).0 == p.pc[pc as usize] & p.col[c as usize]);
+    assert!(b.side_to_move() == color(p.stm) && b.en_passant() == opt_file(p.ep));
+    assert!(b.halfmove_clock() == half && b.fullmove_number() == full);
+    let (nh, nf) = (n.u8(), n.u16());
+    n.assume(nh <= 100 && nf >= 1);
+    b.set_halfmove_clock(nh);
+    b.set_fullmove_number(nf);
+    assert!(b.halfmove_clock() == nh && b.fullmove_number() == nf);
+    assert!(pos_of(&b).same(&p));
+    assert!(refm::accepts(&p, nh, nf));
+}
+
+/// The setters refuse out-of-range clocks (so no board with clocks out of range is handed out).
+pub fn setters_panic<N: Nd>(n: &mut N, which: u8) {
+    let (p, half, full) = sym_accepted(n);
+    let mut b = board_of(&p, half, full, n.u64());
+    if which == 0 {
+        let nh = n.u8();
+        n.assume(nh > 100);
+        if n.native() {
+            println!("witness: set_halfmove_clock({})", nh);
+        }
+        b.set_halfmove_clock(nh);
+    } else {
+        if n.native() {
+            println!("witness: set_fullmove_number(0)");
+        }
+        b.set_fullmove_number(0);
+    }
+    vcover!(true, "!setter returned on an out-of-range clock");
+}
+
 crate::proofs! {
+    #[kani::should_panic]
+    c06_set_half_panics => |n: &mut _| setters_panic(n, 0);
+    #[kani::should_panic]
+    c06_set_full_panics => |n: &mut _| setters_panic(n, 1);
+    c06_accessors_setters => accessors_setters;
     c06_v_board_a4 => |n: &mut _| v_board(n, 4);
     c06_v_board_a8 => |n: &mut _| v_board(n, 8);
     c06_v_board_a16 => |n: &mut _| v_board(n, 16);
